@@ -25,7 +25,9 @@ CATEGORY_KEY = {
 }
 
 
-def run(ctx):
+def selector_grammar(ctx, rule=None):
+    """The selector grammar of Slicer.__init__ (all documented forms, every path).  With `rule` every obligation is filed
+    under that one rule id (for a property that borrows the grammar)."""
     model = ctx.model
     slicer = model.cls('Slicer')
     for name in ('__init__', 'parse_single', 'parse_tuple', 'parse_slice', 'resolve_labels', 'get'):
@@ -56,14 +58,14 @@ def run(ctx):
         probs = by_form.get(form, [])
         cats = sorted({c for c, m in probs})
         if not probs:
-            ctx.ob('C13.R1', init, init.node.lineno, f"selector form {form}", True,
+            ctx.ob(rule or 'C13.R1', init, init.node.lineno, f"selector form {form}", True,
                    fact=f"{info['paths']} paths, {info['accepted']} accepting; every accepted path yields "
                         f"(0-based start | open, exclusive stop | open) from the right component and axis")
         for cat in cats:
             msgs = [m for c, m in probs if c == cat]
-            ctx.ob('C13.R1' if cat not in ('step', 'accept', 'error-type', 'unassigned', 'never-accepted') else
+            ctx.ob(rule or ('C13.R1' if cat not in ('step', 'accept', 'error-type', 'unassigned', 'never-accepted') else
                    {'step': 'C13.R2', 'accept': 'C13.R3', 'error-type': 'C13.R3', 'unassigned': 'C13.R3',
-                    'never-accepted': 'C13.R3'}[cat],
+                    'never-accepted': 'C13.R3'}[cat]),
                    init, init.node.lineno, f"selector form {form}", False, fact=msgs[0],
                    why=msgs[0], key=CATEGORY_KEY.get(cat, cat))
     ctx.count('idx_paths', stats['paths'])
@@ -72,10 +74,19 @@ def run(ctx):
     floor(ctx, 'selector forms', stats['forms'], 30)
     floor(ctx, 'index-typing paths', stats['paths'], 50)
     # spec floor: rejection paths exist (range gates and membership gates raise ValueError)
-    ctx.ob('C13.R2', init, init.node.lineno, 'out-of-range indices and unknown labels have rejecting paths',
+    ctx.ob(rule or 'C13.R2', init, init.node.lineno, 'out-of-range indices and unknown labels have rejecting paths',
            stats['raises'].get('ValueError', 0) >= 20, fact=f"raise outcomes {stats['raises']}",
            why='range / membership gates no longer reject', key='no rejecting paths', nontrivial=False)
 
+    return slicer, init, stats
+
+
+def run(ctx):
+    model = ctx.model
+    slicer, init, stats = selector_grammar(ctx)
+    # a selection handed to a recipe step addresses the same wells when the step is carried out
+    from .c07 import addressed_selection
+    addressed_selection(ctx, 'C13.R3', only=('remove', 'transfer'))
     # ---- list order in get(): the stored slices are visited in order
     g = slicer.methods['get']
     bad = None
